@@ -780,6 +780,7 @@ static void ZSTDMT_compressionJob(void* jobDescription)
                         (U32)cSize, (U32)job->cSize);
             ZSTD_pthread_cond_signal(&job->job_cond);   /* warns some more data is ready to be flushed */
             ZSTD_pthread_mutex_unlock(&job->job_mutex);
+            ZSTD_VERIF_STALL(ZSTD_VS_mtAfterChunk);
         }
         /* last block */
         assert(chunkSize > 0);
